@@ -26,6 +26,27 @@ Theorem quiet_silent : forall v f, may_write true v f = false.
 Proof. exact quiet_silent_lemma. Qed.
 Print Assumptions quiet_silent.
 
+(* ---- the hand model re-checked against the source on every build ----
+   Generated/GenGate.v is what harness/translate.py (a fail-closed translator of a small pure subset of Python) makes of
+   Output._may_write and of the constants of api/io/flags.py in the source tree at hand; bin/setup regenerates it before
+   every build.  The gate of the model IS that function, for every quiet, verbosity and flags (None, any integer): *)
+From Clikit Require Generated.GenGate Proofs.GenEquivLemmas.
+Theorem may_write_matches_source : forall quiet verbosity flags,
+  GenGate.may_write quiet verbosity flags = may_write quiet verbosity flags.
+Proof. exact GenEquivLemmas.gen_may_write_eq. Qed.
+Print Assumptions may_write_matches_source.
+
+Theorem gate_constants_match_source :
+  GenGate.NORMAL = NORMAL /\ GenGate.VERBOSE = VERBOSE /\ GenGate.VERY_VERBOSE = VERY_VERBOSE /\ GenGate.DEBUG = DEBUG.
+Proof. exact GenEquivLemmas.gen_gate_constants. Qed.
+Print Assumptions gate_constants_match_source.
+
+(* ... so gate_level is a statement about the translated code itself *)
+Theorem source_gate_level : forall q v f, (0 <= v)%Z ->
+  GenGate.may_write q v f = negb q && (lowest_level f <=? v)%Z.
+Proof. intros q v f H. rewrite GenEquivLemmas.gen_may_write_eq. exact (may_write_level q v f H). Qed.
+Print Assumptions source_gate_level.
+
 Example gate_nonvacuous :
   emits KSection true MWriteLine false VERBOSE (Some 3%Z) = true /\
   emits KSection true MWriteLine false NORMAL (Some 3%Z) = false /\
